@@ -272,6 +272,8 @@ impl MyErr {
         MyErr(name.into())
     }
 }
+#[allow(non_camel_case_types)]
+pub type my_err_t = MyErr;
 pub fn my_err_any<S: AsRef<str>>(s: S) -> MyErr {
     my_err(s.as_ref())
 }
